@@ -406,6 +406,16 @@ func (e *Exec) lookupName(st *State, fr *Frame, name string, at *ssa.BasicBlock,
 		}
 	}
 	if best == nil {
+		// a parameter or local captured by a closure lives in a cell allocated in the entry block: its current value
+		if len(fr.fn.Blocks) > 0 {
+			for _, ins := range fr.fn.Blocks[0].Instrs {
+				if a, ok := ins.(*ssa.Alloc); ok && a.Comment == name && a.Heap {
+					if pv, ok := fr.env[a].(*PtrV); ok {
+						return st.LoadLoc(e.locOf(pv)), true
+					}
+				}
+			}
+		}
 		if p, ok := fr.params[name]; ok {
 			return p, true
 		}
